@@ -397,6 +397,14 @@ def roundEven (x : UInt32) : UInt32 :=
 /-- ext/scalar_common.inl:162-169 (fixed): `return static_cast<uint>(round(x));` -/
 @[inline] def uround (x : UInt32) : UInt32 := f2u (roundS x)
 
+/-- func_common.inl:570-575 `std::modf(x, &i)`: C11 7.12.6.12 / F.10.3.12 — integral part = trunc(x),
+fractional part = x − trunc(x) (exact) with the sign of x; `modf(±inf)` = (±0, ±inf) -/
+@[inline] def modfInt (x : UInt32) : UInt32 := truncS x
+@[inline] def modfFrac (x : UInt32) : UInt32 :=
+  if isNaN x then fNaN
+  else if isInf x then x &&& 0x80000000
+  else (mag (fsub x (truncS x))) ||| (x &&& 0x80000000)
+
 /-- the unfixed `iround`: `static_cast<int>(x + 0.5f)`; kept to state what was wrong -/
 @[inline] def iroundOld (x : UInt32) : Int32 := f2i (fadd x fHalf)
 
@@ -663,6 +671,11 @@ def roundEven (x : UInt64) : UInt64 :=
   else if fmod2IsZero integerPart then integerPart
   else if le x fZero then fsub integerPart fOne
   else fadd integerPart fOne
+@[inline] def modfInt (x : UInt64) : UInt64 := truncS x
+@[inline] def modfFrac (x : UInt64) : UInt64 :=
+  if isNaN x then fNaN
+  else if isInf x then x &&& 0x8000000000000000
+  else (mag (fsub x (truncS x))) ||| (x &&& 0x8000000000000000)
 @[inline] def iround (x : UInt64) : Int32 := f2i (roundS x)
 @[inline] def uround (x : UInt64) : UInt32 := f2u (roundS x)
 @[inline] def wrapClamp (x : UInt64) : UInt64 := clamp x fZero fOne
